@@ -291,6 +291,19 @@ void StatusPrinter::BuildStarted() {
 void StatusPrinter::BuildFinished() {
   printer_.SetConsoleLocked(false);
   printer_.PrintOnNewLine("");
+
+  // The same printer serves the manifest regeneration build and the real
+  // build after it: the plan totals of a finished build must not leak into
+  // the next one (EdgeAddedToPlan() runs before BuildStarted(), so they
+  // cannot be reset there).
+  total_edges_ = 0;
+  eta_predictable_edges_total_ = 0;
+  eta_predictable_edges_remaining_ = 0;
+  eta_unpredictable_edges_remaining_ = 0;
+  eta_predictable_cpu_time_total_millis_ = 0;
+  eta_predictable_cpu_time_remaining_millis_ = 0;
+  cpu_time_millis_ = 0;
+  time_predicted_percentage_ = 0.0;
 }
 
 string StatusPrinter::FormatProgressStatus(const char* progress_status_format,
